@@ -228,7 +228,8 @@ class Asn1toolsLike(object):
 
                 def emit(out, a, b):
                     for c in value[a:b]:
-                        out.uint(ord(c), 32)
+                        from pyfront import ord_shim
+                        out.uint(ord_shim(c), 32)
                 self.with_length(buf, len(value), 0, None, emit, 'octets')
 
             def kmstring_aligned(self, fixed, ub, b):
